@@ -190,8 +190,7 @@ Proof.
   cbn [marshal] in *. cbv zeta in *.
   set (t := if np then show_noparens g else show g) in *.
   assert (Hl : len t <= 255).
-  { unfold sigval_ok in Hok. apply andb_true_iff in Hok as [_ Hl]. apply N.leb_le in Hl. subst t.
-    destruct np; [|exact Hl]. destruct g; try exact Hl. unfold show_noparens. pose proof (len_concat_le_show fs). lia. }
+  { unfold sigval_ok in Hok. apply andb_true_iff in Hok as [_ Hl]. apply N.leb_le in Hl. subst t. exact Hl. }
   assert (Ha : ascii_nz t = true) by (subst t; destruct np; [apply ascii_show_noparens|apply ascii_show]).
   rewrite (de_str_1 st t (or_introl Hs) Hl Ha Hat). cbn [bind].
   change (t_cfg (adv st (len (nb (len t) :: t ++ [x00])))) with (t_cfg st). rewrite Hps, Hlb. reflexivity.
